@@ -1,5 +1,6 @@
 """The interpreter proper: transfer functions over MIR statements / terminators, library models,
 fixpoint iteration and the replay ("walk") the rules use to query states and collect obligations."""
+import re
 from .loader import Place, op_place, const_int, ty_int_range, span_str, to_signed
 from .absint import *
 from . import absint
@@ -827,6 +828,11 @@ class Interp:
             if isinstance(R, tuple) and sv_type(R) is None and R[0] not in ("ref", "k"):
                 set_ty(R, tykey(dest.ty))
             S.write(dloc, R)
+            if dest.ty.get("k") == "adt" and dest.ty.get("adt") == "generic_array::GenericArray":
+                # the length of a GenericArray<T, N> is the type-level number N (generic-array documentation)
+                n = typenum_value(dest.ty.get("s", ""))
+                if n is not None:
+                    S.write((dloc[0], dloc[1] + (("len",),)), K("usize", n))
 
     def default_call(self, S, t, callee, args, name):
         path = callee.get("path") or "indirect"
@@ -1056,6 +1062,17 @@ def promoted_read(loc, v):
     if isinstance(v, tuple) and v[0] == "ld":
         return project(base, loc[1])
     return v
+
+
+def typenum_value(ty_str):
+    """N of  GenericArray<T, N>  where N is a typenum unsigned integer  UInt<UInt<UTerm, B1>, B0> ...  (bits most significant first)"""
+    if "typenum::uint::UTerm" not in ty_str:
+        return None
+    tail = ty_str[ty_str.index("typenum::uint::UTerm"):]
+    bits = re.findall(r"typenum::bit::B([01])", tail)
+    if not bits or "typenum::uint::UTerm" in tail[len("typenum::uint::UTerm"):]:
+        return None
+    return int("".join(bits), 2)
 
 
 def assemble_bytes(sv):
